@@ -27,31 +27,53 @@ NROWS = len(A_ROWS)
 INDEXES = {None: None, "default": None, "permuted": [3, 0, 6, 2, 5, 1, 4], "string": list("pqrstuv"), "nonunique": [1, 1, 0, 0, 2, 2, 1]}
 
 
-def cat_frame(index=None, a_rows=None, b_rows=None) -> pandas.DataFrame:
+# other data layouts ("any row count >= 1, any level sets"): name -> (A rows, A levels, B rows, B levels)
+LAYOUTS = {
+    "crossed7": (A_ROWS, A_LEVELS, B_ROWS, B_LEVELS),
+    "one-row": (["y"], A_LEVELS, ["v"], B_LEVELS),
+    "one-level-B": (["y", "x", "y"], ["x", "y"], ["u", "u", "u"], ["u"]),
+}
+
+
+def cat_frame(index=None, a_rows=None, b_rows=None, a_levels=None, b_levels=None) -> pandas.DataFrame:
     if isinstance(index, str):
         index = INDEXES[index]
+    a_rows, b_rows = a_rows or A_ROWS, b_rows or B_ROWS
+    if index is not None:
+        index = index[: len(a_rows)]
     return pandas.DataFrame(
         {
-            "A": pandas.Categorical(a_rows or A_ROWS, categories=A_LEVELS),
-            "B": pandas.Categorical(b_rows or B_ROWS, categories=B_LEVELS),
+            "A": pandas.Categorical(a_rows, categories=a_levels or A_LEVELS),
+            "B": pandas.Categorical(b_rows, categories=b_levels or B_LEVELS),
         },
         index=index,
     )
 
 
-def full_frame(a, b, index=None, a_rows=None, b_rows=None) -> pandas.DataFrame:
-    df = cat_frame(index, a_rows, b_rows)
+def layout_frame(layout: str, index=None) -> pandas.DataFrame:
+    ar, al, br, bl = LAYOUTS[layout]
+    return cat_frame(index, ar, br, al, bl)
+
+
+def layout_world(layout: str, a, b, **kw):
+    ar, al, br, bl = LAYOUTS[layout]
+    return world(a, b, a_rows=ar, b_rows=br, a_levels=al, b_levels=bl, **kw)
+
+
+def full_frame(a, b, index=None, a_rows=None, b_rows=None, layout=None) -> pandas.DataFrame:
+    df = layout_frame(layout, index) if layout else cat_frame(index, a_rows, b_rows)
     df["a"] = numpy.asarray(a, dtype=float)
     df["b"] = numpy.asarray(b, dtype=float)
     return df
 
 
-def world(a: list, b: list, one: Any = 1.0, zero: Any = 0.0, a_rows=None, b_rows=None, two: Any = 2.0) -> World:
+def world(a: list, b: list, one: Any = 1.0, zero: Any = 0.0, a_rows=None, b_rows=None, two: Any = 2.0, a_levels=None, b_levels=None) -> World:
     a_rows, b_rows = a_rows or A_ROWS, b_rows or B_ROWS
+    A_LEVELS_, B_LEVELS_ = a_levels or A_LEVELS, b_levels or B_LEVELS
     return World(
         len(a),
         numeric={"a": list(a), "b": list(b), "I(a * 2)": [two * v for v in a], "a + b": [x + y for x, y in zip(a, b)]},
-        categorical={"A": (A_LEVELS, a_rows), "C(A)": (A_LEVELS, a_rows), "B": (B_LEVELS, b_rows)},
+        categorical={"A": (A_LEVELS_, a_rows), "C(A)": (A_LEVELS_, a_rows), "B": (B_LEVELS_, b_rows)},
         one=one,
         zero=zero,
     )
